@@ -67,7 +67,7 @@ def cases(rng, tier, shard, nshards):
             canonical = True
         else:
             d = G.gen_gfa2(rng, canonical=canonical, gaps_in_sets=rng.random() < 0.3, gaps_in_paths=rng.random() < 0.2,
-                           ngaps=rng.choice([0, 1, 2]))
+                           ngaps=rng.choice([0, 1, 2]), ncustom=rng.choice([0, 0, 1, 2, 2]))
         lines = d.lines()
         rng.shuffle(lines)
         yield {"version": version, "lines": lines, "vlevel": rng.choice([0, 1, 1, 2, 3]), "canonical": canonical,
